@@ -432,23 +432,42 @@ func (s *Server) getObjectHandler(w http.ResponseWriter, r *http.Request) {
 	// A set of several ranges is satisfiable as soon as one of its members is
 	// (RFC 7233 section 2.1); the unsatisfiable members are then ignored. The
 	// storage layer rejects the whole request for a single unsatisfiable range,
-	// so those have to be dropped up front, which needs the object size.
-	if len(storageRanges) > 1 {
+	// so those have to be dropped up front, which needs the object size. The
+	// read is pinned to the ETag the size was taken from: if the object is
+	// replaced in between, the ranges are evaluated again for the new object.
+	var object *storage.Object
+	var readers []io.ReadCloser
+	multiRangeDone := false
+	if len(storageRanges) > 1 && (ifMatch == nil || *ifMatch == "*") {
 		var headOpts *storage.HeadObjectOptions
 		if versionID != nil {
 			headOpts = &storage.HeadObjectOptions{VersionID: versionID}
 		}
-		// Errors are left to GetObject below, which reports them properly.
-		if headObject, err := s.storage.HeadObject(ctx, bucketName, key, headOpts); err == nil {
-			if satisfiableRanges := dropUnsatisfiableRanges(storageRanges, headObject.Size); len(satisfiableRanges) > 0 {
-				storageRanges = satisfiableRanges
+		for attempt := 0; attempt < 3 && !multiRangeDone; attempt++ {
+			// Errors are left to the unpinned GetObject below, which reports them properly.
+			headObject, headErr := s.storage.HeadObject(ctx, bucketName, key, headOpts)
+			if headErr != nil {
+				break
 			}
+			satisfiableRanges := dropUnsatisfiableRanges(storageRanges, headObject.Size)
+			if len(satisfiableRanges) == 0 {
+				satisfiableRanges = storageRanges
+			}
+			pinnedOpts := storage.GetObjectOptions{VersionID: versionID, IfMatchETag: &headObject.ETag, IfNoneMatchETag: ifNoneMatch}
+			object, readers, err = s.storage.GetObject(ctx, bucketName, key, satisfiableRanges, &pinnedOpts)
+			if err == storage.ErrPreconditionFailed {
+				continue
+			}
+			storageRanges = satisfiableRanges
+			multiRangeDone = true
 		}
 	}
 
 	// GetObject now returns metadata and readers in a single transaction
 	// It also validates the ranges and returns ErrInvalidRange if invalid
-	object, readers, err := s.storage.GetObject(ctx, bucketName, key, storageRanges, getOpts)
+	if !multiRangeDone {
+		object, readers, err = s.storage.GetObject(ctx, bucketName, key, storageRanges, getOpts)
+	}
 	if err != nil {
 		if currentDeleteMarkerErr, ok := err.(*storage.CurrentDeleteMarkerError); ok {
 			responseHeaders := w.Header()
